@@ -47,11 +47,76 @@ def entry_reaches(body, dst_bb, removed_blocks=(), removed_edges=()):
     return dst_bb in body.reachable_blocks(0, removed_blocks, removed_edges)
 
 
+def implied_edges(body, via_blocks=(), via_edges=()):
+    """Edges that can only be taken after one of via_blocks / via_edges was passed, because of the VALUE they test:
+    the true edge of `if flag` where every definition of the bool local `flag` other than a constant `false` lies behind the given
+    edges (`let is_reg = a == x && b == y; .. if is_reg {..}`: the true edge implies the `a == x` test succeeded); dually for false."""
+    edges = list(via_edges)
+    for _ in range(3):
+        added = False
+        for bb, si in body.switches():
+            if si["kind"] != "bool":
+                continue
+            c = strip(si["cond"])
+            if c[0] != "phi" or len(c) < 4:
+                continue
+            ds = body.defs().get(c[1], [])
+            if not ds or not all(d[0] in ("assign", "call") for d in ds):
+                continue
+            for value in (True, False):
+                es = [(bb, t, lab) for (t, lab, m) in si["edges"] if m is value]
+                if not es or all(e in edges for e in es):
+                    continue
+                ok = True
+                n_other = 0
+                for d in ds:
+                    rv = d[3] if d[0] == "assign" else None
+                    is_const = rv is not None and "use" in rv and "const" in rv["use"] and "bool" in rv["use"]["const"]
+                    if is_const and bool(rv["use"]["const"]["bool"]) != value:
+                        continue        # this definition cannot produce `value`
+                    n_other += 1
+                    if d[1] in set(via_blocks):
+                        continue
+                    if entry_reaches(body, d[1], via_blocks, edges):
+                        ok = False
+                        break
+                if ok and n_other:
+                    edges += es
+                    added = True
+        if not added:
+            break
+    return edges
+
+
 def dominated(body, dst_bb, via_blocks=(), via_edges=()):
-    """Every normal path from entry to dst passes through one of via_blocks / via_edges."""
+    """Every normal path from entry to dst passes through one of via_blocks / via_edges (or through an edge that, by the value
+    it tests, can only be taken after one of them: see implied_edges)."""
     if dst_bb in set(via_blocks):
         return True
-    return not entry_reaches(body, dst_bb, via_blocks, via_edges)
+    if not entry_reaches(body, dst_bb, via_blocks, via_edges):
+        return True
+    if via_edges or via_blocks:
+        more = implied_edges(body, via_blocks, via_edges)
+        if len(more) > len(list(via_edges)):
+            return not entry_reaches(body, dst_bb, via_blocks, more)
+    return False
+
+
+def comparison_true_only(cond):
+    """For `if flag` with flag = phi(false | .. | <a REL b>): the comparison that is known to hold on the TRUE edge (the false edge
+    says nothing about it).  None when `cond` is not of that shape."""
+    c = strip(cond)
+    if c[0] != "phi" or len(c) < 4:
+        return None
+    others = []
+    for alt in c[3]:
+        a = strip(alt)
+        if a[0] == "const" and a[1].get("bool") is False:
+            continue
+        others.append(a)
+    if len(others) != 1:
+        return None
+    return comparison(others[0])
 
 
 def edge_triples(body, bb, meaning_pred):
